@@ -39,7 +39,7 @@ func init() {
 			return f
 		},
 		Assumptions: []string{
-			"edge whitespace in values is ASCII space/tab only; INDI/FAM lines are never followed by junk continuation lines (their value is not defined by the property)",
+			"edge white space in values is ASCII space/tab and the Unicode spaces NBSP, U+3000, U+2003, U+0085 (trimmed as strings.TrimSpace does); INDI/FAM lines are never followed by junk continuation lines (their value is not defined by the property)",
 			"nothing is demanded of rejected inputs (C03)",
 		},
 	})
